@@ -301,3 +301,6 @@ def tag(line, impl, model):
 
 def exhaustive(tier):
     return True   # all 255 substitutions at every position of the seed lines; all strings over the 8-symbol alphabet up to the tier's length
+
+
+KNOWN_MUST_MATCH_MODEL = True   # inside a known finding's region the observation must still equal the model's (which reproduces the listed defect); see lib/vf/run.py
